@@ -3,7 +3,7 @@
 
 import ast
 
-from ..facts import CONTEXT_FREE, LP_CLASS, walk
+from ..facts import CONTEXT_FREE, LP_CLASS, fmt_target, walk
 from ..model import norm_stmt
 from .common import facts, parent
 from . import derive
@@ -91,6 +91,44 @@ def check_selectors(ctx, rule):
     ctx.floor(rule, "row selections in _fit_arm bodies", n, 7)
 
 
+def check_cardinality_order(ctx, F, c):
+    """R1.7: the facade and the policies share one arm list. A statistic that uses len(self.arms) (Popularity's
+    uniform share) must be derived after add_arm / remove_arm have changed that list, never before."""
+    n = 0
+    for lab in ("add_arm", "remove_arm"):
+        root = F.trace(c, lab)
+        w = F.focus(c, root)
+        eng = w.eng
+        mab = eng.obj(w.mab_oid)
+        arms_oids = set(mab.fields["arms"].refs)
+        # (object, '.arms') locations that denote the shared list
+        holders = {(o.oid, (".arms",)) for o in eng.heap.objs.values()
+                   if "arms" in o.fields and (o.fields["arms"].refs & arms_oids)}
+        cards = {("card", r) for r in arms_oids}
+        dependents = []
+        for ev, anc in walk(root):
+            if ev.kind != "store":
+                continue
+            n += 1
+            tg = ev.a["targets"]
+            if any(t.oid in arms_oids or (t.field == "arms" and t.sub) for t in tg):
+                for dev in dependents:
+                    ctx.violate("R1.7", "%s changes the arm list after %s was computed from its length" %
+                                (lab, fmt_target(dev.a["targets"][0])), dev.node, dev.fn,
+                                "the value depends on len(self.arms), but `%s` in %s changes the list afterwards "
+                                "without re-deriving it [%s]" % (norm_stmt(ev.node), ev.fn.qualname, c.name))
+                dependents = []
+                continue
+            v = ev.a.get("value")
+            if v is not None and any(t.region == "bandit" and t.ocls != "MAB" for t in tg) and \
+                    any(d in cards for d in v.deps):
+                dependents.append(ev)
+        for dev in dependents:
+            ctx.ok("R1.7", "%s: %s is derived after the arm list was changed" % (lab, fmt_target(dev.a["targets"][0])),
+                   dev.node, dev.fn)
+    return n
+
+
 def check(ctx):
     F = facts(ctx)
     prog = ctx.prog
@@ -101,12 +139,15 @@ def check(ctx):
     ctx.rule("R1.3", "reward rows are selected by one selector built from decisions == arm")
     ctx.rule("R1.4", "neutral value agreement between __init__, fit and add_arm")
     ctx.rule("R1.6", "accumulator updates are guarded only by cardinality predicates")
+    ctx.rule("R1.7", "a value computed from the number of arms is computed after the arm list has been changed")
     n_self = n_stale = n_pf = 0
     classes = set()
+    n_card = 0
     for c in F.configs(np_=[None]):
         cls = LP_CLASS[c.lp]
         if cls not in CONTEXT_FREE:
             continue
+        n_card += check_cardinality_order(ctx, F, c)
         classes.add(cls)
         fm = derive.FieldModel(F, c)
         eng = fm.eng
@@ -196,6 +237,7 @@ def check(ctx):
                           "%s indexes self.%s with its own arm" % (fn.qualname, node.value.attr), node, fn,
                           "index `%s` is not the task's arm parameter" % ast.unparse(node.slice))
     ctx.floor("R1.2", "per-arm subscripts in _fit_arm", k, 14)
+    ctx.floor("R1.7", "store events on add_arm / remove_arm traces", n_card, 20)
     ctx.floor("R1.1", "context-free classes analysed", len(classes), 6)
     ctx.floor("R1.1", "stores to derived fields examined", n_self, 12)
     ctx.floor("R1.1", "input writes examined for staleness", n_stale, 15)
